@@ -83,6 +83,85 @@ def inline_pure(prog, e, depth=0):
     return e
 
 
+def project_fields(prog, e, depth=0):
+    """`field(agg adt {..}, name)` -> the operand of that field (after inline_pure put a helper's
+    returned struct / tuple in place of the call)"""
+    if depth > 40 or not isinstance(e, tuple) or not e:
+        return e
+    e = tuple(project_fields(prog, x, depth + 1) if isinstance(x, tuple) else x for x in e)
+    if e[0] == "field" and isinstance(e[1], tuple) and e[1] and e[1][0] == "agg" and len(e[1]) > 4:
+        agg = e[1]
+        ops = agg[4]
+        idx = None
+        if isinstance(e[2], int):
+            idx = e[2]
+        elif isinstance(e[2], str) and e[2].isdigit():
+            idx = int(e[2])
+        elif agg[1] == "adt" and agg[2] in prog.adts:
+            names = [x[0] for x in prog.adts[agg[2]]["variants"][0]["fields"]]
+            if e[2] in names:
+                idx = names.index(e[2])
+        if idx is not None and idx < len(ops):
+            return ops[idx]
+    return e
+
+
+def success_value(prog, e, depth=0):
+    """`(helper(args)? )` / `helper(args).unwrap()` / `(helper(args) as Some).0` -> the value the
+    crate-local helper wraps in its only Some / Ok aggregate, as an expression of the arguments
+    (the conditions under which it returns None / Err are not part of the value)"""
+    if depth > 30 or not isinstance(e, tuple) or not e:
+        return e
+    e = tuple(success_value(prog, x, depth + 1) if isinstance(x, tuple) else x for x in e)
+    inner = None
+    if e[0] == "field" and str(e[2]) == "0" and isinstance(e[1], tuple) and e[1] and e[1][0] == "variant" \
+            and e[1][2] in ("Continue", "Some", "Ok"):
+        inner = e[1][1]
+    elif e[0] in ("call", "callat") and (e[1] if e[0] == "call" else e[2]) in ("unwrap", "unwrap_unchecked", "expect"):
+        a = e[2] if e[0] == "call" else e[3]
+        inner = a[0] if a else None
+    if inner is None:
+        return e
+    for _ in range(3):
+        if isinstance(inner, tuple) and inner and inner[0] in ("call", "callat") and \
+                (inner[1] if inner[0] == "call" else inner[2]) in ("branch", "into_iter"):
+            a = inner[2] if inner[0] == "call" else inner[3]
+            inner = a[0] if a else inner
+    if not (isinstance(inner, tuple) and inner and inner[0] in ("call", "callat")):
+        return e
+    res = inner[4] if inner[0] == "callat" else inner[3]
+    args = inner[3] if inner[0] == "callat" else inner[2]
+    g = prog.fns.get(res) if isinstance(res, str) else None
+    if g is None or g.kind == "closure" or len(args) != g.arg_count:
+        return e
+    gs = None
+    vals = []
+    for (bb, j, rv, w) in g.defs().get(0, []):
+        if w and rv[0] == "agg" and rv[1] == "adt" and isinstance(rv[3], list) and len(rv[3]) > 1 \
+                and rv[3][1] in ("Some", "Ok") and rv[4]:
+            gs = gs or Sym(g)
+            vals.append(gs.operand(rv[4][0], (bb, j)))
+    if len(vals) != 1:
+        return e
+
+    def pinned(x):
+        if not isinstance(x, tuple) or not x:
+            return False
+        if x[0] in ("callat", "local", "unknown"):
+            return True
+        return any(pinned(y) for y in x if isinstance(y, tuple))
+    if pinned(vals[0]):
+        return e
+    mapping = {("param", i + 1, g.local_name(i + 1)): a for i, a in enumerate(args)}
+    return subst(vals[0], mapping)
+
+
+def resolve_helpers(prog, e):
+    """helper calls inlined, the fields of the structs they return projected, and the value of a
+    fallible helper's only success aggregate put in place of `helper(..)?`"""
+    return success_value(prog, project_fields(prog, inline_pure(prog, e)))
+
+
 def _some_of_checked(e):
     """(a.checked_mul(b) as Some).0 is the exact product a * b (likewise checked_add)"""
     if not isinstance(e, tuple) or not e:
